@@ -1,12 +1,16 @@
 from lib.core import Kani, Fn
+from props.C04 import LCA_UNIT
+from props.C02 import CM_UNIT
 
 PROPERTY = 'C03'
 LEVEL = 'proof'
 C = 'crates/aranya-runtime/src/command.rs'
 B = 'crates/aranya-runtime/src/client/braiding.rs'
 RT = dict(crate='aranya-runtime', features='testing,libc')
-HARNESS_FILES = ['kani/aranya-runtime/command.rs', 'kani/aranya-runtime/strand_heap.rs', 'kani/aranya-runtime/convergence_map.rs']
+HARNESS_FILES = ['verus/c04_lca.py', 'verus/c02_convergence_map.py', 'kani/aranya-runtime/command.rs', 'kani/aranya-runtime/strand_heap.rs', 'kani/aranya-runtime/convergence_map.rs']
 UNITS = [
+    LCA_UNIT,
+    CM_UNIT,
     Kani('command::verif_kani::c03_priority_order_is_rank_order', fns=[], contract='derive(Ord) on Priority = Merge < Basic(n) by n < Finalize < Init, all pairs (complete)', **RT),
     Kani('client::braiding::strand_heap::verif_kani::c03_strand_order_is_reversed_priority_then_id', fns=[Fn(B, 'cmp', r'impl<S> Ord for Strand<S>', mod=r'pub\(crate\) mod strand_heap')],
          contract='Strand::cmp = reversed lexicographic (priority rank, id bytes); eq <=> cmp = Equal; tie-break is the command id; a Finalize strand never pops before a concurrent Basic/Merge strand', **RT),
@@ -18,11 +22,12 @@ UNITS = [
 ]
 TRUSTED = ['ids vary in their first and last byte in the order harness (the comparison is a 32-byte memcmp)']
 ASSUMPTIONS = ['equality of the braided fact state with the reference braid over all DAGs (LCA correctness, segment-layout independence) is history-level and is NOT decided',
-               'lca_pair / braid loop steps are not under contract yet']
+               'the braid loop itself (strand pops, same-segment check) is not under contract; lca_pair / last_common_ancestor and the convergence map are (units shared with C04 / C02)']
 EXPLANATION = 'The deterministic order that the reference braid is defined by (priority, then id, reversed for the heap) and the max-cut arithmetic are proved on the real types over their full domains.'
 MANIFEST = {
-    'text': 'Proof of mechanisms only: the braid tie-break order (Priority rank then command id, reversed for the max-heap) and the max-cut arithmetic, over their full domains on the real types. '
+    'text': 'Proof of mechanisms only: the braid tie-break order (Priority rank then command id, reversed for the max-heap) and the max-cut arithmetic, over their full domains on the real types; '
+            'the braid\'s cut (last common ancestor) is a common ancestor of all heads and its convergence map drops every arrival but the last (Verus, unbounded). '
             'Reference-model equality over all DAGs is not decided.',
     'note': 'Mechanism contracts only (PROVED-LOCAL).',
-    'technique': 'Kani contract harnesses (loop-free, full domains) + CBMC',
+    'technique': 'Kani contract harnesses (loop-free, full domains; CBMC) + Verus units shared with C04 (LCA) and C02 (convergence map)',
 }
